@@ -472,6 +472,25 @@ func laws(bs *base, in []byte, rep *vh.Report, mutated bool) (accepted bool) {
 func TestMutate(t *testing.T) {
 	cases, shapes := loadInputs(t)
 	bs := bases(cases, shapes, t)
+	if key := os.Getenv("VERIF_REPLAY_BASE"); key != "" {
+		// re-execute one recorded violation of the byte-level laws
+		rep := vh.NewReport("c10-mutate-replay", "one recorded input re-executed")
+		in, err := hex.DecodeString(os.Getenv("VERIF_REPLAY_HEX"))
+		if err != nil {
+			t.Fatal(err)
+		}
+		for i := range bs {
+			if bs[i].key == key {
+				laws(&bs[i], in, rep, true)
+				checkAlloc(&bs[i], in, rep)
+				rep.Eval(key)
+			}
+		}
+		if err := rep.Write(); err != nil {
+			t.Fatal(err)
+		}
+		return
+	}
 	rep := vh.NewReport("c10-mutate", "oracle-free laws on the generated inputs and seeded byte-level mutations: strict ok => lax ok with identical value and remainder; lax-only acceptance only where strict failed one of the three documented checks; strict == encoding/asn1 (verdict, value, remainder) unless explained by a deliberate difference; no panic; allocation bounded by a multiple of the input length; non-trivial = mutated input accepted by some decoder")
 	n := vh.EnvInt("VERIF_MUTATIONS", 200000)
 	workers := runtime.NumCPU()
@@ -501,20 +520,6 @@ func TestMutate(t *testing.T) {
 	// allocation meter (sequential: the counters are process-wide)
 	rng := vh.Rand(77)
 	na := vh.EnvInt("VERIF_ALLOC_SAMPLES", 3000)
-	var ms runtime.MemStats
-	measure := func(f func()) uint64 {
-		best := ^uint64(0)
-		for try := 0; try < 3; try++ {
-			runtime.ReadMemStats(&ms)
-			before := ms.TotalAlloc
-			f()
-			runtime.ReadMemStats(&ms)
-			if d := ms.TotalAlloc - before; d < best {
-				best = d
-			}
-		}
-		return best
-	}
 	maxRatio := 0.0
 	for i := 0; i < na; i++ {
 		b := &bs[rng.Intn(len(bs))]
@@ -522,16 +527,8 @@ func TestMutate(t *testing.T) {
 		if i%4 != 0 {
 			in = mutate(rng, b.input, bs[rng.Intn(len(bs))].input)
 		}
-		for _, params := range []string{"", "lax"} {
-			d := measure(func() { runFork(b.tFork, in, params) })
-			limit := uint64(allocConst + allocPerByte*len(in))
-			if r := float64(d) / float64(allocConst+allocPerByte*len(in)); r > maxRatio {
-				maxRatio = r
-			}
-			if d > limit {
-				rep.Violate("alloc:"+strings.SplitN(b.key, "/", 2)[0], fmt.Sprintf("decoding %d octets (%s) into %v (params %q) allocated %d bytes > %d + %d*len",
-					len(in), hx(in), b.tFork, params, d, allocConst, allocPerByte), map[string]any{"base": b.key, "input_hex": hx(in), "go_type": b.tFork.String()})
-			}
+		if r := checkAlloc(b, in, rep); r > maxRatio {
+			maxRatio = r
 		}
 		rep.Eval("")
 	}
@@ -540,6 +537,34 @@ func TestMutate(t *testing.T) {
 	if err := rep.Write(); err != nil {
 		t.Fatal(err)
 	}
+}
+
+// checkAlloc meters the bytes allocated while the fork decodes in (strict and lax) and returns the largest
+// fraction of the bound that was used.
+func checkAlloc(b *base, in []byte, rep *vh.Report) float64 {
+	var ms runtime.MemStats
+	maxRatio := 0.0
+	for _, params := range []string{"", "lax"} {
+		best := ^uint64(0)
+		for try := 0; try < 3; try++ {
+			runtime.ReadMemStats(&ms)
+			before := ms.TotalAlloc
+			runFork(b.tFork, in, params)
+			runtime.ReadMemStats(&ms)
+			if d := ms.TotalAlloc - before; d < best {
+				best = d
+			}
+		}
+		limit := uint64(allocConst + allocPerByte*len(in))
+		if r := float64(best) / float64(limit); r > maxRatio {
+			maxRatio = r
+		}
+		if best > limit {
+			rep.Violate("alloc:"+strings.SplitN(b.key, "/", 2)[0], fmt.Sprintf("decoding %d octets (%s) into %v (params %q) allocated %d bytes > %d + %d*len",
+				len(in), hx(in), b.tFork, params, best, allocConst, allocPerByte), map[string]any{"base": b.key, "input_hex": hx(in), "go_type": b.tFork.String()})
+		}
+	}
+	return maxRatio
 }
 
 const (
